@@ -241,3 +241,27 @@ def doc_type_function(style: str, name: str, types: list[str]) -> str:
         doc = "Summary " + "; ".join(types) + "\n"
         cdoc = "Summary.\n"
     return f"def {name}({', '.join(ps)}):\n    r\"\"\"{doc}    \"\"\"\n    return 1\n\n\nclass K{name}:\n    r\"\"\"{cdoc}    \"\"\"\n\n    at = None\n\n\n"
+
+
+# what stands where the module docstring stands: the usual text, nothing, and the degenerate forms people leave behind
+# (placeholder docstrings of line breaks / blanks only, the empty string, one line without final line break, raw text)
+MODULE_DOCSTRING_FORMS = [
+    None,  # keep the prelude's docstring
+    None,
+    '"""\n"""\n',
+    '"""\n\n\n"""\n',
+    '""" """\n',
+    '""""""\n',
+    '"""   \n\t\n"""\n',
+    "'single quoted one-liner'\n",
+    '"""\n\n    Indented after blank lines.\n\n\n"""\n',
+    'r"""Raw \\d+ text */ with a comment end."""\n',
+    "",  # no docstring at all
+]
+
+
+def prelude_with(form: str | None) -> str:
+    if form is None:
+        return PRELUDE
+    head = PRELUDE.index("from __future__")
+    return form + PRELUDE[head:]
